@@ -103,3 +103,11 @@ Proof. reflexivity. Qed.
 Example writers_case_example :
   writers_case [[p1]; [p2]] [1; 0] (frame p2 ++ frame p1) = [1; 1] ++ enc_res (Ok p2) ++ enc_res (Ok p1).
 Proof. reflexivity. Qed.
+
+(* ---- a long unread backlog of one function does not touch another function *)
+Definition backlog (n : nat) : list ev :=
+  [Recv F_CRTP; Recv 5] ++ repeat (Arrive (Ok p2)) n ++ [Arrive (Ok q1); Recv F_CRTP].
+Example backlog_200_unread :
+  obs_of F_CRTP (snd (r_run r_init (backlog 200))) = [(F_CRTP, None); (F_CRTP, Some q1)] /\
+  length (pending 5 (fst (r_run r_init (backlog 200)))) = 200%nat.
+Proof. split; vm_compute; reflexivity. Qed.
